@@ -33,7 +33,7 @@ func init() {
 	register("C08", &core.Rule{ID: "C08.7", Title: "every schema-update request makes progress", Mod: core.ModRoot, Floor: 30, Run: c08_7})
 	register("C04", &core.Rule{ID: "C04.5", Title: "every schema-update request makes progress (rebuild loops terminate)", Mod: core.ModRoot, Floor: 30, Run: c08_7})
 	register("C08", &core.Rule{ID: "C08.8", Title: "delta state is re-initialised on the first row of a batch", Mod: core.ModRoot, Floor: 4, Run: c08_8})
-	for _, prop := range []string{"C01", "C02", "C03"} {
+	for _, prop := range []string{"C01", "C02", "C03", "C04"} {
 		register(prop, &core.Rule{ID: "RT.19", Title: "delta builders re-initialise their base on the first row of a batch (id columns do not depend on the previous batch)", Mod: core.ModRoot, Floor: 4, Run: c08_8})
 	}
 	register("C08", &core.Rule{ID: "C08.1", Title: "inventory of explicit panics reachable on the encode path", Mod: core.ModRoot, Floor: 20, Thorough: true, Run: c08_1})
